@@ -7,7 +7,7 @@ Driver commands of area `life` (C08).  One request line is one whole history:
   (pdoTop / pdoSub / spcall: the default_options dicts of project('top'), project('sub'), subproject('sub'))
 
 defs  `name=spec,name=spec` (spec as in Driver/Options.lean: `kind/default/y/r`)
-cmd   `su;<dict>`  `rc;<dict>`  `cf;<optdict>`  `wi;<dict>`  `es;<0|1>;<name>;<spec>`  `er;<0|1>;<name>`
+cmd   `su;<dict>`  `rc;<dict>`  `cf;<optdict>`  `wi;<dict>`  `es;<0|1>;<name>;<spec>`  `er;<0|1>;<name>`  `co` (truncate coredata.dat)
       (dict / optdict / keys / values as in Driver/Options.lean)
 
 observation  `<out>#<core>#<cmdline>#<intro>`
@@ -53,6 +53,7 @@ def parseCmd (f : String) : Option Cmd :=
   | ["wi", d] => some (.wipe (parseDict d))
   | ["es", p, n, sp] => some (.editSet (p == "1") (decodeStr n) (parseSpec sp))
   | ["er", p, n] => some (.editRemove (p == "1") (decodeStr n))
+  | ["co"] => some .corrupt
   | _ => none
 
 def join (l : List String) : String := ",".intercalate (sortStrs l)
@@ -102,7 +103,7 @@ def showOut : MesonModel.Life.Out → String
   | .failed _ _ => "fail"
 
 def showObs (x : Dir × MesonModel.Life.Out) : String :=
-  showOut x.2 ++ "#" ++ (match x.1.core with | none => "-" | some c => showCore c) ++ "#" ++
+  showOut x.2 ++ "#" ++ (match x.1.core with | none => (if x.1.corrupt then "!corrupt" else "-") | some c => showCore c) ++ "#" ++
   (match x.1.cmdline with
    | none => "-"
    | some cl => ",".intercalate ((cl.filter (fun p => p.1.name != "backend".toList)).map (fun p => showCmdKey p.1 ++ "=" ++ showV p.2))) ++ "#" ++
